@@ -7,7 +7,7 @@ ROOT="$(cd "$(dirname "${BASH_SOURCE[0]}")/.." && pwd)"
 tier=quick
 while getopts "t:" o; do case $o in t) tier=$OPTARG ;; esac; done
 shift $((OPTIND - 1))
-[ $# -eq 0 ] && set -- $(ls "$ROOT/seeded")
+[ $# -eq 0 ] && set -- $(ls "$ROOT/seeded" | grep "^S")
 miss=0
 for id in "$@"; do
 	p=$(python3 -c 'import json,sys; print(json.load(open(sys.argv[1]))["breaks_property"])' "$ROOT/seeded/$id/meta.json")
